@@ -23,6 +23,19 @@ ProgNestedQ == (p1 :> <<"pin", "defer", "flush", "unpin", "pin", "flush", "unpin
 TaskNestedQ == (1 :> <<"pin", "flush", "flush", "unpin">>) @@ (2 :> <<>>)
 ProgPinAdvQ == (p1 :> <<"pin", "defer", "unpin">>) @@ (p2 :> <<"pin", "advance", "flush", "unpin", "pin", "advance", "unpin">>) @@ (p3 :> <<"pin", "advance", "unpin">>)
 ProgExitQ == (p1 :> <<"pin", "defer", "defer", "unpin", "hdrop">>) @@ (p2 :> <<"pin", "flush", "unpin", "pin", "flush", "unpin", "pin", "flush", "unpin", "pin", "flush", "unpin", "pin", "flush", "unpin">>)
+\* ---- refinement: Ebr.tla implements the abstract EBR that Circ.tla is written over (EbrAbs.tla)
+\* A participant is abstractly pinned from the successful re-validation of its announcement (not from the
+\* store that publishes a possibly stale epoch) to the store that withdraws it; a guard is in the user's hands
+\* while the ghost count ug is positive; a deferred function is pending with the epoch at which defer was called.
+APinned(p) == lpin[p] /\ pc[p] \notin {"pin_val", "pin_reset"}
+Abs == INSTANCE EbrAbs WITH Task <- Task,
+         agep <- gep,
+         aep <- [p \in P |-> IF APinned(p) THEN lep[p] ELSE -1],
+         afrozen <- [p \in P |-> ug[p] > 0],
+         atask <- {[k |-> k, ep |-> dep[k]] : k \in {j \in Task : st[j] = "bag"}}
+RefinesAbs == Abs!ASpecChk
+AbsEpochBound == Abs!AEpochBound
+AbsFrozenPinned == Abs!AFrozenPinned
 \* liveness: the survivor repeats pin/flush/unpin for ever
 ProgExitLive == (p1 :> <<"pin", "defer", "defer", "unpin", "hdrop">>) @@ (p2 :> <<"pin", "flush", "unpin">>)
 ProgOutlivesLive == (p1 :> <<"pin", "defer", "hdrop", "flush", "unpin">>) @@ (p2 :> <<"pin", "flush", "unpin">>)
